@@ -280,9 +280,18 @@ def key_call(r, e):
     return KEY.weighted_score(r, e)
 
 
-def b_patterns(occ=(1, 1), notes=1):
+def b_patterns(occ=(1, 1), notes=1, thres=False):
     """size = (n ref patterns, m est patterns); each pattern has occ[k] occurrences of `notes` notes."""
     def build(ctx, size):
+        d = build0(ctx, size)
+        if thres:
+            t = ctx.real('thres')
+            ctx.assume(t > 0)
+            ctx.assume(t <= 1)
+            d['kw']['thres'] = t
+        return d
+
+    def build0(ctx, size):
         n, m = size
 
         def pats(tag, k, nocc):
@@ -508,10 +517,10 @@ add('pattern.establishment_FPR', PAT.establishment_FPR, b_patterns((1, 1), 1), [
     perfect=[1, 1, 1], swap=[0, 2, 1], shift=shift_patterns)
 add('pattern.establishment_FPR[2 occ]', PAT.establishment_FPR, b_patterns((2, 1), 1), [('F', 'unit'), ('P', 'unit'), ('R', 'unit')],
     _sz([(1, 1)], [(1, 1), (1, 2)]), funcs=['pattern.establishment_FPR'] + PAT_FUNCS, swap=[0, 2, 1])
-add('pattern.occurrence_FPR', PAT.occurrence_FPR, b_patterns((1, 1), 1), [('F', 'unit'), ('P', 'unit'), ('R', 'unit')],
+add('pattern.occurrence_FPR', PAT.occurrence_FPR, b_patterns((1, 1), 1, thres=True), [('F', 'unit'), ('P', 'unit'), ('R', 'unit')],
     _sz([(1, 1), (2, 1)], [(1, 1), (2, 1), (2, 2)]), funcs=['pattern.occurrence_FPR'] + PAT_FUNCS, perfect=[1, 1, 1], swap=[0, 2, 1],
     shift=shift_patterns)
-add('pattern.occurrence_FPR[2 occ]', PAT.occurrence_FPR, b_patterns((2, 2), 1), [('F', 'unit'), ('P', 'unit'), ('R', 'unit')],
+add('pattern.occurrence_FPR[2 occ]', PAT.occurrence_FPR, b_patterns((2, 2), 1, thres=True), [('F', 'unit'), ('P', 'unit'), ('R', 'unit')],
     _sz([(1, 1)], [(1, 1)]), funcs=['pattern.occurrence_FPR'] + PAT_FUNCS, swap=[0, 2, 1], timeout_s=1500)
 add('pattern.three_layer_FPR', PAT.three_layer_FPR, b_patterns((1, 1), 1), [('F', 'unit'), ('P', 'unit'), ('R', 'unit')],
     _sz([(1, 1), (2, 1)], [(1, 1), (2, 1), (2, 2)]), funcs=['pattern.three_layer_FPR'] + PAT_FUNCS, perfect=[1, 1, 1], swap=[0, 2, 1],
